@@ -869,8 +869,6 @@ class ClusterTask:
                       smt_hash="inv"))
         if oos:
             out.append(ob(f"{eng.name}.in-subset", "out-of-reach", detail=sorted(set(oos))[:8]))
-        if r["rounds"] > 1 and r.get("inductive"):
-            save_inv(eng.cache_file + ".new", r["inv"], {"rounds": r["rounds"]})
         sample = [clause_text(clause_from_key(k)) for k in r["inv"].get("entry", []) if len(clause_from_key(k)) == 2][:25]
         return {"obligations": out,
                 "info": {"target": f"cluster:{eng.name}", "paths": npaths, "rounds": r["rounds"], "wall": r.get("wall"),
